@@ -358,6 +358,10 @@ def history_cases(jobs):
         # registered method already has; X3 clauses of Trace_Table)
         ov = Ovld(allow_replacement=False) if job.get("noreplace") else Ovld()
         live = []
+        # priority each live method is expected to have (X5: a hot-reloaded method keeps the priority of the version it replaces)
+        prio = {mid: m["prio"] for mid, m in byid.items()}
+        if job.get("x5"):
+            _install_codefind_stub()
         counters = {"tm": 0, "mtm": 0, "plain": 0}
 
         def point(name, fields):
@@ -391,6 +395,23 @@ def history_cases(jobs):
                         continue      # (its registration had been refused)
                     ov.unregister(ns[st["m"]])
                     live.remove(st["m"])
+                elif st["op"] == "conform":
+                    # beyond the listed properties (X5): hot reload through the Conformer the registered method carries
+                    # (what jurigged / codefind call when the source of a method is edited); to = "" removes the method
+                    ov.ensure_compiled()
+                    hs = [h for h in ov.map.type_tuples if getattr(h, "_conformer", None) is not None and h._conformer.orig_fn is ns[st["m"]]]
+                    if len(hs) != 1:
+                        raise RuntimeError(f"conformer of {st['m']} not found ({len(hs)})")
+                    try:
+                        hs[0]._conformer.__conform__(ns[st["to"]] if st["to"] else None)
+                        rec["out"] = "ok"
+                    except Exception as e:
+                        rec["out"] = f"raised {type(e).__name__}: {e}"[:200]
+                    live.remove(st["m"])
+                    if st["to"]:
+                        live.append(st["to"])
+                        prio[st["to"]] = prio[st["m"]]
+                    prio[st["m"]] = byid[st["m"]]["prio"]
                 else:
                     ns["BUDGET"][0] = st.get("budget", job.get("budget", 3))
                     u0 = user_count()
@@ -403,7 +424,7 @@ def history_cases(jobs):
                     rec["counts"] = {"user": user_count() - u0, "tm_miss": counters["tm"], "mtm_miss": counters["mtm"], "plain_miss": counters["plain"]}
                     fresh = Ovld()
                     for mid in live:
-                        fresh.register(ns[mid], priority=byid[mid]["prio"])
+                        fresh.register(ns[mid], priority=prio[mid])
                     ns["BUDGET"][0] = st.get("budget", job.get("budget", 3))
                     rec["fresh"] = ob.call(fresh.dispatch, st["call"], resolve=False) if live else None
                     if rec["fresh"] is None:
@@ -417,8 +438,30 @@ def history_cases(jobs):
         if err:
             out.append({"id": job["id"], "skip": "harness: " + err})
         else:
-            out.append({"id": job["id"], "props": job["props"], "world": job["world"], "steps": steps, "noreplace": bool(job.get("noreplace"))})
+            out.append({"id": job["id"], "props": job["props"], "world": job["world"], "steps": steps, "noreplace": bool(job.get("noreplace")),
+                        "x5": bool(job.get("x5"))})
     return out
+
+
+def _install_codefind_stub():
+    """codefind is not installed in this sandbox (the repository's test_conform fails at the import for that reason); the
+    Conformer only tells it that a code object was replaced, so a recording stand-in is enough to let a hot reload finish"""
+    import sys
+    import types
+
+    if "codefind" in sys.modules:
+        return
+    mod = types.ModuleType("codefind")
+
+    class _Registry:
+        def __init__(self):
+            self.updates = []
+
+        def update_cache_entry(self, obj, old, new):
+            self.updates.append((obj, old, new))
+
+    mod.code_registry = _Registry()
+    sys.modules["codefind"] = mod
 
 
 # ---------------------------------------------------------------------------
@@ -784,6 +827,35 @@ def graph_replay(jobs):
                             rec["out"] = "config"
                             kept = {k: v for k, v in g.own[n].items() if v != o["m"]}
                             g.own[n] = {(s, -sum(1 for (s2, r2) in kept if s2 == s and r2 > r)): v for (s, r), v in kept.items()}
+                        elif "locked" not in str(e):
+                            raise
+                        else:
+                            rec["out"] = "refused"
+                elif o["op"] == "conform" and o["old"] not in g.fns:
+                    rec["out"] = "absent"
+                elif o["op"] == "conform":
+                    # X5 (beyond the listed properties): hot reload through the Conformer of a method the node registered itself
+                    _install_codefind_stub()
+                    fn = g.method(o["m"], o["sid"])
+                    hs = [h for h in g.nodes[n].map.type_tuples
+                          if getattr(h, "_conformer", None) is not None and h._conformer.orig_fn is g.fns[o["old"]] and h._conformer.ovld is g.nodes[n]]
+                    if len(hs) != 1:
+                        raise RuntimeError(f"conformer of method {o['old']} in node {n}: {len(hs)} found")
+
+                    def reloaded():
+                        kept = {k: v for k, v in g.own[n].items() if v != o["old"]}
+                        g.own[n] = {(s, -sum(1 for (s2, r2) in kept if s2 == s and r2 > r)): v for (s, r), v in kept.items()}
+                        g.fns[o["m"]] = fn
+                        g.pushdown(g.own[n], o["sid"], 0, o["m"])
+
+                    try:
+                        hs[0]._conformer.__conform__(fn)
+                        rec["out"] = "ok"
+                        reloaded()
+                    except Exception as e:
+                        if config_error(e):
+                            rec["out"] = "config"
+                            reloaded()
                         elif "locked" not in str(e):
                             raise
                         else:
@@ -2250,14 +2322,18 @@ def recode_cases(jobs):
                 else:
                     holder = {}
 
-                    def o_recurse(x, *, k=0):
+                    def o_recurse(x, y=0, *, k=0):
                         if not isinstance(x, int):
                             raise TypeError("No method (oracle)")
+                        if wrapper == "twopos":
+                            return holder["top"](x, y)
                         return holder["top"](x, k=k) if host is None else holder["top"](host, x, k=k)
 
-                    def o_next(x, *, k=0):
+                    def o_next(x, y=0, *, k=0):
                         if not isinstance(x, int):
                             raise TypeError("No method (oracle)")
+                        if wrapper == "twopos":
+                            return ns["m_next"](x, y)
                         return ns["m_next"](x, k=k) if host is None else ns["m_next"](host, x, k=k)
 
                     ns["recurse"] = o_recurse
@@ -2358,7 +2434,14 @@ def deferred_tables(jobs):
                 ov.register(ns["mt"])
                 ov.register(ns["mo"])
                 fs[nme] = ov
+            # both deferred classes on one function (two types that are not resolved yet, at the same position)
+            nsb = {"T1": D1, "T2": D2}
+            exec("def mt1(x: T1):\n    return 'T1'\ndef mt2(x: T2):\n    return 'T2'\ndef mo(x: object):\n    return 'O'\n", nsb)
+            both = Ovld()
+            for nme in ("mt1", "mt2", "mo"):
+                both.register(nsb[nme])
             pre = {nme: fs[nme](5) for nme in fs}  # a first use before the import
+            pre_both = both(5)
             sub = importlib.import_module(f"{pkg}.sub")
             topm = importlib.import_module(top)
             classes = [None, object, sub.Shape, sub.Square, sub.Other, topm.Thing, int]
@@ -2393,10 +2476,21 @@ def deferred_tables(jobs):
                             dp.append("ERR:" + type(e).__name__)
                     rec["clssub"] = sc
                     rec["dispatch"] = dp
+                    mine, other = ("T1", "T2") if i == 7 else ("T2", "T1")
+                    db = []
+                    for c in range(1, 7):
+                        try:
+                            v = both(5 if c == 6 else classes[c]())
+                            db.append("T" if v == mine else "X" if v == other else v)
+                        except TypeError as e:
+                            db.append("AMB" if str(e).startswith("Ambiguous") else "ERR:" + str(e)[:40])
+                        except Exception as e:  # noqa
+                            db.append("ERR:" + type(e).__name__)
+                    rec["dispatch_both"] = db
                 rows[str(i)] = rec
             loaded = Deferred[f"{pkg}.sub.Shape"] is sub.Shape
             out.append({"id": job["id"], "types": types, "rows": rows, "parents": [[], [1], [2], [1], [1], [1]],
-                        "attrs": [[], [], [], [], [], []], "pre": pre, "loaded_returns_class": loaded})
+                        "attrs": [[], [], [], [], [], []], "pre": pre, "pre_both": pre_both, "loaded_returns_class": loaded})
         finally:
             sys.path.remove(root)
             for m in [m for m in sys.modules if m.startswith(pkg) or m == top]:
